@@ -48,6 +48,15 @@ def parsePat : String → Option Pat
   | "chr" => some .charLit
   | "int" => some .intLit
   | "concatid" => some .concatIdent
+  | "path" => some .path
+  | "mac" => some .macroCall
+  -- spellings of the EMPTY literal: the same token kinds (the model's verdict does not look at the value)
+  | "estr" => some .str              -- `""`
+  | "eraw" => some .rawStr           -- `r""`
+  | "eraw1" => some .rawStr          -- `r#""#`
+  | "econcat0" => some .concatLits   -- `concat!()`
+  | "econcat2" => some .concatLits   -- `concat!("", "")`
+  | "estringify" => some .stringifyCall  -- `stringify!()`
   | _ => none
 
 def parsePats (s : String) : Option (List Pat) :=
